@@ -1,10 +1,11 @@
 """Abstract interpretation of RungeKuttaIntegrator.__call__ shared by C02.4, C04.2, C05.1/2.
 
-state = (implicit, adaptive, newton, redo, prov, failed)
+state = (implicit, adaptive, newton, redo, prov, failed, pdt)
   newton in {'ok','bad','na'}  -- outcome of the last stage solve (havocked at every self.step call of an implicit method)
   redo   in {True, False, None} -- value of the redo flag
   prov   in {'INPUT','SHRUNK','CONTROLLER'} -- where the value of the returned step variable comes from
   failed -- a stage solve failed at some point of this call
+  pdt    -- provenance of self.dTime (the step the last self.step call was given)
 """
 import ast
 
@@ -94,7 +95,7 @@ class CallClient(Client):
         return "CONTROLLER"
 
     def transfer(self, st, state):
-        impl, adp, newton, redo, prov, failed = state
+        impl, adp, newton, redo, prov, failed, pdt = state
         outs = [state]
         if isinstance(st, ast.Assign):
             sc = self._step_call(st.value)
@@ -102,30 +103,44 @@ class CallClient(Client):
             tnames = [e.id for e in tg.elts if isinstance(e, ast.Name)] if isinstance(tg, ast.Tuple) else ([tg.id] if isinstance(tg, ast.Name) else [])
             if sc is not None:
                 arg = sc.args[4] if len(sc.args) > 4 else next((k.value for k in sc.keywords if k.arg == "timestep"), None)
-                np_ = self.arg_prov(arg, prov) if arg is not None else "CONTROLLER"
-                if self.m.ret_var not in tnames:
-                    np_ = prov
+                ap = self.arg_prov(arg, prov) if arg is not None else "CONTROLLER"
+                np_ = ap if self.m.ret_var in tnames else prov
                 outs = []
                 for n in (("ok", "bad") if impl else ("na",)):
-                    outs.append((impl, adp, n, redo, np_, failed or n == "bad"))
+                    outs.append((impl, adp, n, redo, np_, failed or n == "bad", ap))
             elif self._has_update(st.value):
                 np_ = "CONTROLLER" if self.m.ret_var in tnames else prov
                 if self.m.redo in tnames:
-                    outs = [(impl, adp, newton, True, np_, failed), (impl, adp, newton, False, np_, failed)]
+                    outs = [(impl, adp, newton, True, np_, failed, pdt), (impl, adp, newton, False, np_, failed, pdt)]
                 else:
-                    outs = [(impl, adp, newton, redo, np_, failed)]
+                    outs = [(impl, adp, newton, redo, np_, failed, pdt)]
             else:
-                for t in st.targets:
-                    if isinstance(t, ast.Name) and t.id == self.m.redo:
-                        if isinstance(st.value, ast.Constant) and isinstance(st.value.value, bool):
-                            outs = [(impl, adp, newton, st.value.value, prov, failed)]
+                pairs = []
+                if isinstance(tg, ast.Tuple) and isinstance(st.value, ast.Tuple) and len(tg.elts) == len(st.value.elts):
+                    pairs = list(zip(tg.elts, st.value.elts))
+                else:
+                    pairs = [(t, st.value) for t in st.targets]
+                cur = [(impl, adp, newton, redo, prov, failed, pdt)]
+                for t, v in pairs:
+                    nxt = []
+                    for (i_, a_, n_, r_, p_, f_, d_) in cur:
+                        if isinstance(t, ast.Name) and t.id == self.m.redo:
+                            if isinstance(v, ast.Constant) and isinstance(v.value, bool):
+                                nxt.append((i_, a_, n_, v.value, p_, f_, d_))
+                            else:
+                                nxt += [(i_, a_, n_, True, p_, f_, d_), (i_, a_, n_, False, p_, f_, d_)]
+                        elif isinstance(t, ast.Name) and t.id == self.m.ret_var:
+                            if is_self_attr(v, "dTime"):
+                                nxt.append((i_, a_, n_, r_, d_, f_, d_))
+                            else:
+                                nxt.append((i_, a_, n_, r_, self._scaled(v, p_), f_, d_))
                         else:
-                            outs = [(impl, adp, newton, True, prov, failed), (impl, adp, newton, False, prov, failed)]
-                    elif isinstance(t, ast.Name) and t.id == self.m.ret_var:
-                        outs = [(impl, adp, newton, redo, self._scaled(st.value, prov), failed)]
+                            nxt.append((i_, a_, n_, r_, p_, f_, d_))
+                    cur = nxt
+                outs = cur
         elif isinstance(st, ast.AugAssign) and isinstance(st.target, ast.Name) and st.target.id == self.m.ret_var:
             v = ast.BinOp(left=ast.Name(id=self.m.ret_var, ctx=ast.Load()), op=st.op, right=st.value)
-            outs = [(impl, adp, newton, redo, self._scaled(v, prov), failed)]
+            outs = [(impl, adp, newton, redo, self._scaled(v, prov), failed, pdt)]
         return outs
 
     def _scaled(self, value, prov):
@@ -153,7 +168,7 @@ class CallClient(Client):
         return "CONTROLLER"
 
     def branch(self, test, state):
-        impl, adp, newton, redo, prov, failed = state
+        impl, adp, newton, redo, prov, failed, pdt = state
 
         def val(n):
             d = dotted(n)
@@ -176,6 +191,6 @@ def analyse(fn):
     m = CallModel(fn)
     cl = CallClient(m)
     eng = Engine(cl)
-    init = [(i, a, "na", None, "INPUT", False) for i in (False, True) for a in (False, True)]
+    init = [(i, a, "na", None, "INPUT", False, "INPUT") for i in (False, True) for a in (False, True)]
     out = eng.run(fn, init)
     return m, out, eng
